@@ -31,6 +31,17 @@ pub struct IntegScn {
     pub schedule: Vec<IEv>,
     /// (piece index, evaluation point)
     pub samples: Vec<(usize, f64)>,
+    /// whole-sequence consumptions of a fresh iterator: (by value?, consumer method)
+    pub batches: Vec<(bool, IBatch)>,
+}
+
+/// The consumer methods a caller may use on the iterators instead of plain `next()`.
+#[derive(Clone, Copy, Debug, PartialEq, Eq)]
+pub enum IBatch {
+    Fold,
+    Count,
+    Last,
+    Nth(usize),
 }
 
 const U: f64 = 1.1102230246251565e-16; // 2^-53
@@ -240,6 +251,10 @@ pub enum IRes {
     Clean(u64),
     Discard,
     Violation(String, String),
+}
+
+fn by_value_segs<T: Clone>(f: &Piecewise<T>) -> Rc<Vec<Segment<T>>> {
+    Rc::new(f.segments.clone())
 }
 
 fn seg_bits<P: Piece>(s: &Segment<P>) -> Vec<u64> {
@@ -468,6 +483,85 @@ where
     drop(ita);
     drop(itb);
 
+    // ---- whole-sequence consumptions of fresh iterators ----------------------------------
+    for (bi, &(by_value, mode)) in scn.batches.iter().enumerate() {
+        prog.tick();
+        cov.events += 1;
+        let m = Meter::default();
+        let name = if by_value { "integral_iter (by value)" } else { "integral_iter_ref (by reference)" };
+        // (index, piece) pairs observed, the count if asked for
+        let res: Result<(Vec<(usize, Segment<T::IntegralOf>)>, Option<usize>, usize), String> = guard(|| {
+            macro_rules! consume {
+                ($it:expr) => {{
+                    let mut it = $it;
+                    match mode {
+                        IBatch::Fold => {
+                            let v = it.fold(Vec::new(), |mut acc, s| {
+                                acc.push(s);
+                                acc
+                            });
+                            (v.into_iter().enumerate().collect(), None, n)
+                        }
+                        IBatch::Count => (Vec::new(), Some(it.count()), 0),
+                        IBatch::Last => match it.last() {
+                            Some(s) => (vec![(n - 1, s)], None, 1),
+                            None => (Vec::new(), None, 1),
+                        },
+                        IBatch::Nth(k) => {
+                            let mut v = Vec::new();
+                            if let Some(s) = it.nth(k) {
+                                v.push((k, s));
+                            }
+                            for (j, s) in it.enumerate() {
+                                v.push((k + 1 + j, s));
+                            }
+                            (v, None, n.saturating_sub(k))
+                        }
+                    }
+                }};
+            }
+            if by_value {
+                consume!(Segment::integral_iter(ByValue { segs: by_value_segs(&f), m: m.clone() }, k0))
+            } else {
+                consume!(Segment::integral_iter_ref(ByRef { segs: &f.segments[..], m: m.clone() }, k0))
+            }
+        });
+        let (vals, count, due) = match res {
+            Ok(r) => r,
+            Err(p) => return IRes::Violation("panic".into(), format!("batch {bi}: consuming {name} with {mode:?} panicked: {p}")),
+        };
+        cov.hit("iterator_batches");
+        if m.pos.get() != n {
+            return IRes::Violation(
+                "laziness".into(),
+                format!("batch {bi}: consuming {name} with {mode:?} pulled {} of the {n} input segments", m.pos.get()),
+            );
+        }
+        if let Some(c) = count {
+            if c != n {
+                return IRes::Violation("structure".into(), format!("batch {bi}: {name}.count() = {c} for {n} segments"));
+            }
+        }
+        if vals.len() != due {
+            return IRes::Violation(
+                "structure".into(),
+                format!("batch {bi}: consuming {name} with {mode:?} produced {} pieces where {due} were due", vals.len()),
+            );
+        }
+        for (i, s) in &vals {
+            if *i >= n || seg_bits(s) != seg_bits(&c.segments[*i]) {
+                return IRes::Violation(
+                    "structure".into(),
+                    format!(
+                        "batch {bi}: consuming {name} with {mode:?} yielded {} as piece {i}; Piecewise::integral has {}",
+                        fmt_seg(s),
+                        c.segments.get(*i).map(fmt_seg).unwrap_or_default()
+                    ),
+                );
+            }
+        }
+    }
+
     // ---- values: through the knot, continuity, true integral ---------------------------
     let chain_c = Chain::build(kind, &scn.ends, &scn.coefs, scn.knot);
     // indefinite(): which antiderivative the first piece is (its additive constant) is form-specific
@@ -616,7 +710,12 @@ fn gen_scn(rng: &mut Rng, _tier: Tier) -> IntegScn {
         4..=8 => 2,
         9..=13 => 3,
         14..=16 => 4,
-        _ => rng.usize_in(5, 10),
+        17..=18 => rng.usize_in(5, 10),
+        _ => match rng.below(10) {
+            0..=5 => rng.usize_in(5, 10),
+            6..=8 => rng.usize_in(11, 40),
+            _ => rng.usize_in(100, 300),
+        },
     };
     // breakpoints
     let mut ends = Vec::with_capacity(n);
@@ -655,11 +754,23 @@ fn gen_scn(rng: &mut Rng, _tier: Tier) -> IntegScn {
     // coefficients: exact (small integers) or general
     let exact = rng.chance(1, 2);
     let big = rng.chance(1, 10);
+    // coefficient patterns that special-casing code could hinge on
+    let pattern = rng.below(12);
     let coefs: Vec<Vec<f64>> = (0..n)
         .map(|_| {
+            let same = rng.range(-3, 3) as f64 + if exact { 0.0 } else { rng.unit() };
+            let only = rng.usize_in(0, kind.nc() - 1);
             (0..kind.nc())
-                .map(|_| {
-                    if exact {
+                .map(|j| {
+                    if pattern == 0 && rng.chance(1, 2) {
+                        0.0 // an identically zero piece
+                    } else if pattern == 1 {
+                        same // all coefficients equal
+                    } else if pattern == 2 {
+                        if j == only { same } else { 0.0 } // a single monomial
+                    } else if pattern == 3 && rng.chance(1, 3) {
+                        0.0 // scattered exact zeros
+                    } else if exact {
                         rng.range(-3, 3) as f64
                     } else if big {
                         rng.uniform(-1e3, 1e3)
@@ -735,7 +846,36 @@ fn gen_scn(rng: &mut Rng, _tier: Tier) -> IntegScn {
         let t = ends[n - 1] + rng.uniform(0.0, 4.0);
         samples.push((n - 1, t));
     }
-    IntegScn { kind, ends, coefs, knot: (kx, ky), schedule, samples }
+    // whole-sequence consumptions
+    let nb = *rng.pick(&[0usize, 0, 0, 1, 2]);
+    let batches = (0..nb)
+        .map(|_| {
+            let mode = match rng.below(5) {
+                0 => IBatch::Fold,
+                1 => IBatch::Count,
+                2 => IBatch::Last,
+                _ => IBatch::Nth(rng.usize_in(0, n)),
+            };
+            (rng.chance(1, 2), mode)
+        })
+        .collect();
+    let mut scn = IntegScn { kind, ends, coefs, knot: (kx, ky), schedule, samples, batches };
+    // magnitude classes of the abscissae: everything on the x axis is scaled together
+    let scale = if is_log {
+        *rng.pick(&[1.0, 1.0, 1.0, 1.0, 1.0, 1.0, 1e6, 1e-6, 1e100, 1e-100])
+    } else {
+        *rng.pick(&[1.0, 1.0, 1.0, 1.0, 1.0, 1.0, 1e3, 1e6, 1e-3, 1e-6, 1e-17, 1e-30])
+    };
+    if scale != 1.0 {
+        for e in scn.ends.iter_mut() {
+            *e *= scale;
+        }
+        scn.knot.0 *= scale;
+        for s in scn.samples.iter_mut() {
+            s.1 *= scale;
+        }
+    }
+    scn
 }
 
 // ---------------------------------------------------------------------------
@@ -752,6 +892,16 @@ fn shrink(scn: &IntegScn) -> Vec<IntegScn> {
         for i in 0..scn.schedule.len() {
             let mut s = scn.clone();
             s.schedule.remove(i);
+            out.push(s);
+        }
+    }
+    if !scn.batches.is_empty() {
+        let mut s = scn.clone();
+        s.batches.clear();
+        out.push(s);
+        for i in 0..scn.batches.len() {
+            let mut s = scn.clone();
+            s.batches.remove(i);
             out.push(s);
         }
     }
@@ -834,6 +984,10 @@ fn to_json(scn: &IntegScn) -> Value {
             IEv::RestartB => "restart integral_iter_ref",
         }).collect::<Vec<_>>(),
         "samples": scn.samples.iter().map(|&(i, t)| json!({"piece": i, "t": fj(t)})).collect::<Vec<_>>(),
+        "batches": scn.batches.iter().map(|&(v, m)| json!({
+            "iterator": if v { "integral_iter" } else { "integral_iter_ref" },
+            "consume_with": match m { IBatch::Fold => json!("fold"), IBatch::Count => json!("count"), IBatch::Last => json!("last"), IBatch::Nth(k) => json!({"nth": k}) },
+        })).collect::<Vec<_>>(),
     })
 }
 
@@ -876,7 +1030,27 @@ fn from_json(v: &Value) -> Result<IntegScn, String> {
         .iter()
         .map(|s| Ok((jusize(s, "piece")?, jf(s.get("t").ok_or("missing t")?)?)))
         .collect::<Result<Vec<_>, String>>()?;
-    let scn = IntegScn { kind, ends, coefs, knot, schedule, samples };
+    let batches = match v.get("batches").and_then(|b| b.as_array()) {
+        None => vec![],
+        Some(a) => a
+            .iter()
+            .map(|b| {
+                let by_value = jstr(b, "iterator")? == "integral_iter";
+                let mode = match b.get("consume_with") {
+                    Some(Value::String(s)) => match s.as_str() {
+                        "fold" => IBatch::Fold,
+                        "count" => IBatch::Count,
+                        "last" => IBatch::Last,
+                        x => return Err(format!("bad consume_with {x}")),
+                    },
+                    Some(o) => IBatch::Nth(jusize(o, "nth")?),
+                    None => return Err("missing consume_with".to_string()),
+                };
+                Ok((by_value, mode))
+            })
+            .collect::<Result<Vec<_>, String>>()?,
+    };
+    let scn = IntegScn { kind, ends, coefs, knot, schedule, samples, batches };
     if !valid(&scn) {
         return Err("scenario is outside the property's quantifier (ill-formed function, non-finite numbers, or non-positive arguments for a log piece)".into());
     }
